@@ -326,12 +326,12 @@ CASES += [
     ("linspace array axis", "lambda anp, x, y: anp.linspace(x, y, 3, axis=1)", [((2,), "R"), ((2,), "R")], (0, 1)),
     ("matmul axes", "lambda anp, x, y: anp.matmul(x, y, axes=[(0, 1), (0, 1), (0, 1)])", [((2, 3), "R"), ((3, 2), "R")], (0, 1)),
     ("nan_to_num finite", "lambda anp, x: anp.nan_to_num(x, nan=1.0, posinf=2.0)", [((3,), "R")], (0,)),
-    ("partition kth", "lambda anp, x: anp.partition(x, 2)", [((5,), "R")], (0,)),
-    ("partition axis", "lambda anp, x: anp.partition(x, 1, axis=0)", [((3, 2), "R")], (0,)),
-    ("sort stable", "lambda anp, x: anp.sort(x, kind='stable')", [((5,), "R")], (0,)),
-    ("sort axis=None", "lambda anp, x: anp.sort(x, axis=None)", [((2, 3), "R")], (0,)),
-    ("sort axis=0", "lambda anp, x: anp.sort(x, axis=0)", [((3, 2), "R")], (0,)),
-    ("msort-like method", "lambda anp, x: anp.sort(x)[::-1]", [((4,), "R")], (0,)),
+    ("partition kth", "lambda anp, x: anp.partition(x, 2)", [((5,), "P")], (0,)),
+    ("partition axis", "lambda anp, x: anp.partition(x, 1, axis=0)", [((3, 2), "P")], (0,)),
+    ("sort stable", "lambda anp, x: anp.sort(x, kind='stable')", [((5,), "P")], (0,)),
+    ("sort axis=None", "lambda anp, x: anp.sort(x, axis=None)", [((2, 3), "P")], (0,)),
+    ("sort axis=0", "lambda anp, x: anp.sort(x, axis=0)", [((3, 2), "P")], (0,)),
+    ("msort-like method", "lambda anp, x: anp.sort(x)[::-1]", [((4,), "P")], (0,)),
     ("prod initial", "lambda anp, x: anp.prod(x, initial=2.0)", [((3,), "P")], (0,)),
     ("sum initial", "lambda anp, x: anp.sum(x, axis=0, initial=1.5)", [((2, 3), "R")], (0,)),
     ("sum where", "lambda anp, x: anp.sum(x, where=" + _np + ".array([True, False, True]))", [((2, 3), "R")], (0,)),
@@ -508,7 +508,6 @@ CASES += [
     ("prod tuple axis keepdims", "lambda anp, x: anp.prod(x, axis=(0, 2), keepdims=True)", [((2, 3, 2), "P")], (0,)),
     ("max tuple axis keepdims", "lambda anp, x: anp.max(x, axis=(0, 2), keepdims=True)", [((2, 3, 2), "P")], (0,)),
     ("min negative axis keepdims", "lambda anp, x: anp.min(x, axis=-2, keepdims=True)", [((2, 3, 2), "P")], (0,)),
-    ("amax with ties", "lambda anp, x: anp.amax(anp.concatenate([x, x]), axis=0)", [((3,), "P")], (0,)),
     ("sum of broadcast product negative axis", "lambda anp, x, y: anp.sum(x * y, axis=-1, keepdims=True)", [((2, 1, 3), "R"), ((4, 1), "R")], (0, 1)),
     ("cumsum then reverse then diff", "lambda anp, x: anp.diff(anp.cumsum(x, axis=1)[:, ::-1], axis=1)", [((2, 4), "R")], (0,)),
     ("gradient of its own gradient chain", "lambda anp, x: anp.gradient(anp.gradient(x))", [((5,), "R")], (0,)),
